@@ -47,18 +47,18 @@ deriving Repr, Inhabited
 /-! ## msg_server.go -/
 
 def msgDelegate (del : Acct) (v : ValId) (d : Denom) (amt : Int) : M Unit := do
-  if ¬ (amt > 0) then throwE "invalid_amount"
+  guardE (¬ (amt > 0)) "invalid_amount"
   let val ← getAllianceValidator v
   delegate del val d amt
 
 def msgRedelegate (del : Acct) (src dst : ValId) (d : Denom) (amt : Int) : M Unit := do
-  if amt ≤ 0 then throwE "invalid_amount"
+  guardE (amt ≤ 0) "invalid_amount"
   let s ← getAllianceValidator src
   let t ← getAllianceValidator dst
   redelegate del s t d amt
 
 def msgUndelegate (del : Acct) (v : ValId) (d : Denom) (amt : Int) : M Unit := do
-  if amt ≤ 0 then throwE "invalid_amount"
+  guardE (amt ≤ 0) "invalid_amount"
   let val ← getAllianceValidator v
   undelegate del val d amt
 
@@ -71,93 +71,66 @@ def msgClaim (del : Acct) (v : ValId) (d : Option Denom) : M Unit := do
     pure ()
 
 def msgUpdateParams (s : Signer) (p : Params) : M Unit := do
-  if s = .malformed then throwE "invalid_authority"
-  if p.rewardDelay < 0 then throwE "invalid_duration"
-  if p.takeRateInterval ≤ 0 then throwE "invalid_interval"
-  if s ≠ .authority then throwE "unauthorized"
+  guardE (s = .malformed) "invalid_authority"
+  guardE (p.rewardDelay < 0) "invalid_duration"
+  guardE (p.takeRateInterval ≤ 0) "invalid_interval"
+  guardE (s ≠ .authority) "unauthorized"
   setParams p
 
 def msgCreateAlliance (s : Signer) (f : AllianceFields) : M Unit := do
-  if s = .malformed then throwE "invalid_authority"
-  match f.denom with
-  | none => throwE "empty_denom"
-  | some denom =>
-    if !f.denomValid then throwE "invalid_denom"
-    match f.weight with
-    | none => throwE "invalid_weight"
-    | some weight =>
-      if weight < 0 then throwE "invalid_weight"
-      match f.wmin, f.wmax with
-      | some wmin, some wmax =>
-        if wmin < 0 ∨ wmax < 0 then throwE "invalid_range"
-        if wmin > wmax then throwE "range_min_gt_max"
-        if weight < wmin ∨ weight > wmax then throwE "weight_out_of_range"
-        match f.takeRate with
-        | none => throwE "invalid_take_rate"
-        | some takeRate =>
-          if takeRate < 0 ∨ takeRate ≥ one then throwE "invalid_take_rate"
-          match f.changeRate with
-          | none => panicE "nil"
-          | some changeRate =>
-            if changeRate ≤ 0 then throwE "invalid_change_rate"
-            if f.changeIntv < 0 then throwE "invalid_change_interval"
-            if s ≠ .authority then throwE "unauthorized"
-            let w ← getW
-            if (getAsset w denom).isSome then throwE "already_exists"
-            let start := w.time + w.params.rewardDelay
-            setAsset { denom := denom, weight := weight, wmin := wmin, wmax := wmax, takeRate := takeRate,
-                       totalTokens := 0, totalValShares := 0, startTime := start, changeRate := changeRate,
-                       changeIntv := f.changeIntv, lastChange := start, isInit := false }
-      | _, _ => throwE "invalid_range"
+  guardE (s = .malformed) "invalid_authority"
+  let denom ← requireSome f.denom "empty_denom"
+  guardE (f.denomValid = false) "invalid_denom"
+  let weight ← requireSome f.weight "invalid_weight"
+  guardE (weight < 0) "invalid_weight"
+  let wmin ← requireSome f.wmin "invalid_range"
+  let wmax ← requireSome f.wmax "invalid_range"
+  guardE (wmin < 0 ∨ wmax < 0) "invalid_range"
+  guardE (wmin > wmax) "range_min_gt_max"
+  guardE (weight < wmin ∨ weight > wmax) "weight_out_of_range"
+  let takeRate ← requireSome f.takeRate "invalid_take_rate"
+  guardE (takeRate < 0 ∨ takeRate ≥ one) "invalid_take_rate"
+  let changeRate ← requireSomeP f.changeRate
+  guardE (changeRate ≤ 0) "invalid_change_rate"
+  guardE (f.changeIntv < 0) "invalid_change_interval"
+  guardE (s ≠ .authority) "unauthorized"
+  let w ← getW
+  guardE ((getAsset w denom).isSome) "already_exists"
+  let start := w.time + w.params.rewardDelay
+  setAsset { denom := denom, weight := weight, wmin := wmin, wmax := wmax, takeRate := takeRate,
+             totalTokens := 0, totalValShares := 0, startTime := start, changeRate := changeRate,
+             changeIntv := f.changeIntv, lastChange := start, isInit := false }
 
 def msgUpdateAlliance (s : Signer) (f : AllianceFields) : M Unit := do
-  if s = .malformed then throwE "invalid_authority"
-  match f.denom with
-  | none => throwE "empty_denom"
-  | some denom =>
-    match f.weight with
-    | none => throwE "invalid_weight"
-    | some weight =>
-      if weight < 0 then throwE "invalid_weight"
-      match f.takeRate with
-      | none => throwE "invalid_take_rate"
-      | some takeRate =>
-        if takeRate < 0 ∨ takeRate ≥ one then throwE "invalid_take_rate"
-        match f.changeRate with
-        | none => panicE "nil"
-        | some changeRate =>
-          if changeRate ≤ 0 then throwE "invalid_change_rate"
-          if f.changeIntv < 0 then throwE "invalid_change_interval"
-          if s ≠ .authority then throwE "unauthorized"
-          let w ← getW
-          match getAsset w denom with
-          | none => throwE "unknown_asset"
-          | some asset =>
-            -- the range is not nil-checked: comparing against a nil Dec panics
-            -- short-circuit `Min.GT(w) || Max.LT(w)`: each operand panics only when it is evaluated on a nil Dec
-            match f.wmin with
-            | none => panicE "nil"
-            | some wmin =>
-              if wmin > weight then throwE "weight_out_of_bound"
-              match f.wmax with
-              | none => panicE "nil"
-              | some wmax =>
-                if wmax < weight then throwE "weight_out_of_bound"
-                updateAllianceAsset { asset with wmin := wmin, wmax := wmax, weight := weight, takeRate := takeRate,
-                                                 changeRate := changeRate, changeIntv := f.changeIntv }
+  guardE (s = .malformed) "invalid_authority"
+  let denom ← requireSome f.denom "empty_denom"
+  let weight ← requireSome f.weight "invalid_weight"
+  guardE (weight < 0) "invalid_weight"
+  let takeRate ← requireSome f.takeRate "invalid_take_rate"
+  guardE (takeRate < 0 ∨ takeRate ≥ one) "invalid_take_rate"
+  let changeRate ← requireSomeP f.changeRate
+  guardE (changeRate ≤ 0) "invalid_change_rate"
+  guardE (f.changeIntv < 0) "invalid_change_interval"
+  guardE (s ≠ .authority) "unauthorized"
+  let w ← getW
+  let asset ← requireSome (getAsset w denom) "unknown_asset"
+  -- the range is not nil-checked: `Min.GT(w) || Max.LT(w)` short-circuits, each operand panics only when it is
+  -- evaluated on a nil Dec
+  let wmin ← requireSomeP f.wmin
+  guardE (wmin > weight) "weight_out_of_bound"
+  let wmax ← requireSomeP f.wmax
+  guardE (wmax < weight) "weight_out_of_bound"
+  updateAllianceAsset { asset with wmin := wmin, wmax := wmax, weight := weight, takeRate := takeRate,
+                                   changeRate := changeRate, changeIntv := f.changeIntv }
 
 def msgDeleteAlliance (s : Signer) (d : Option Denom) : M Unit := do
-  if s = .malformed then throwE "invalid_authority"
-  match d with
-  | none => throwE "empty_denom"
-  | some denom =>
-    if s ≠ .authority then throwE "unauthorized"
-    let w ← getW
-    match getAsset w denom with
-    | none => throwE "unknown_asset"
-    | some asset =>
-      if asset.totalTokens > 0 then throwE "active_delegations"
-      modifyW fun w => { w with assets := AL.erase w.assets denom }
+  guardE (s = .malformed) "invalid_authority"
+  let denom ← requireSome d "empty_denom"
+  guardE (s ≠ .authority) "unauthorized"
+  let w ← getW
+  let asset ← requireSome (getAsset w denom) "unknown_asset"
+  guardE (asset.totalTokens > 0) "active_delegations"
+  modifyW fun w => { w with assets := AL.erase w.assets denom }
 
 /-- one operation of the state machine. Messages are transactions (rolled back on failure);
     hooks and end-of-block keep whatever they wrote before failing. -/
